@@ -25,7 +25,7 @@ NAME = "e2"
 REWIRE = True
 CHUNK = 50
 # runs per tier (quick, thorough)
-RUNS = {"C15": (40000, 600000), "C16": (40000, 600000), "C17": (40000, 600000), "C20": (20000, 200000)}
+RUNS = {"C15": (40000, 2000000), "C16": (40000, 2000000), "C17": (40000, 2000000), "C20": (20000, 400000)}
 RULE = ("one run = one seeded history of 6..40 public ListOfDicts operations (constructors, "
         "filters, sort, unique, editing methods, list algebra, joins, aggregate, copies, "
         "render observers, callback faults) on a pool of <=8 lists sharing item objects; "
